@@ -347,6 +347,56 @@ theorem enqueue_order_independent (cfg : Cfg) (pre : List Op) (es1 es2 : List (E
     rw [p1, p2, inv1.acct k, inv2.acct k]
     exact hacc.filter _
 
+theorem ticks_disps (cfg : Cfg) (sc : List Srv) : ∀ (k : Nat) (s : St), ∃ l, (ticks cfg sc k s).disps = s.disps ++ l := by
+  intro k
+  induction k with
+  | zero => intro s; exact ⟨[], by simp [ticks]⟩
+  | succ n ih =>
+    intro s
+    simp only [ticks]
+    obtain ⟨l, hl⟩ := ih (tick cfg sc { s with now := s.lastTick + period cfg, lastTick := s.lastTick + period cfg })
+    rw [hl, tick_eq]
+    refine ⟨((s.batches.filter (fun kb => stale cfg (s.lastTick + period cfg) kb.2)).map
+      (mkDisp (s.lastTick + period cfg) .tick sc)) ++ l, ?_⟩
+    simp [record, List.append_assoc]
+
+theorem step_disps (cfg : Cfg) (s : St) (op : Op) : ∃ l, (step cfg s op).disps = s.disps ++ l := by
+  cases op with
+  | enq e sc =>
+    by_cases hs : s.stopped = true
+    · exact ⟨[], by simp only [step, enq]; rw [enq_stopped_eq cfg s _ sc hs]; simp⟩
+    · have hs : s.stopped = false := by simpa using hs
+      exact ⟨_, enq_disps cfg s _ sc hs⟩
+  | adv d sc =>
+    simp only [step, adv]
+    by_cases hs : s.stopped = true
+    · rw [if_pos hs]; exact ⟨[], by simp⟩
+    · rw [if_neg hs]
+      obtain ⟨l, hl⟩ := ticks_disps cfg sc ((s.now + d - s.lastTick) / period cfg) s
+      exact ⟨l, hl⟩
+  | stop sc =>
+    by_cases hs : s.stopped = true
+    · exact ⟨[], by simp only [step]; unfold stop; rw [if_pos hs]; simp⟩
+    · have hs : s.stopped = false := by simpa using hs
+      simp only [step]; rw [stop_eq cfg s sc hs]
+      exact ⟨_, rfl⟩
+
+/-- **inflight_batch_unaltered** — a batch handed to `sendBatch` is a value: whatever happens afterwards
+(in particular events enqueued for the same destination while that send is still in flight), the
+history of dispatched batches only grows; the events of the in-flight batch, and therefore the
+requests cut from it, stay exactly as dispatched. -/
+theorem inflight_batch_unaltered (cfg : Cfg) (pre post : List Op) :
+    ∃ l, (run cfg (pre ++ post)).disps = (run cfg pre).disps ++ l := by
+  simp only [run, List.foldl_append]
+  generalize List.foldl (step cfg) {} pre = s
+  induction post generalizing s with
+  | nil => exact ⟨[], by simp⟩
+  | cons o os ih =>
+    simp only [List.foldl_cons]
+    obtain ⟨l1, h1⟩ := step_disps cfg s o
+    obtain ⟨l2, h2⟩ := ih (step cfg s o)
+    exact ⟨l1 ++ l2, by rw [h2, h1, List.append_assoc]⟩
+
 /-- every `sendBatch` the transmission ever started has returned -/
 theorem never_hangs (cfg : Cfg) (ops : List Op) : (run cfg ops).complete = true := (invA_run cfg ops).complete
 
